@@ -137,6 +137,22 @@ func runC02(c *Ctx) {
 			}
 		}
 		c.Ob("C02-R2", "call sites of insert/reorg found", "", ncs >= 4, fmt.Sprintf("%d", ncs))
+		// alternative entry point: `aquachain import` pre-filters the blocks of a file; a block may be skipped as
+		// "already present" only by its own hash (a block of another branch at a known height is not present)
+		if mb := c.FnOpt("subcommands:missingBlocks"); mb == nil {
+			c.Ob("C02-R2", "subcommands.missingBlocks found", "", false, "")
+		} else {
+			fmb := c.Facts(mb)
+			blk := `\[\]Block#0\[\(phi:rangeindex(~\d+)? \+ 1\)\]`
+			hashOf := `(` + blk + `\.Hash\(\)|` + blk + `\.SetVersion\(BlockChain#0\.Config\(\)\.GetBlockVersion\(` + blk + `\.Number\(\)\)\))`
+			st := fmb.LoopBackStates(`^BlockChain\.(HasBlock|HasBlockAndState)$`)
+			c.mustStates("C02-R2", mb, "loop continuation (block skipped as present)", st, []LitReq{
+				{Name: "import skips a block only if that very block (by hash) is stored", Re: `^BlockChain#0\.(HasBlock|HasBlockAndState)\(` + hashOf + `, ` + blk + `\.NumberU64\(\)\)$`},
+			})
+			if len(st) == 0 {
+				c.Ob("C02-R2", "missingBlocks has the skip-present-block loop", c.FnPos(mb), false, "")
+			}
+		}
 		wh := c.Fn("core:(*HeaderChain).WriteHeader")
 		hext := `new\(Int\)\.Add\(Header#0\.Difficulty, HeaderChain#0\.GetTd\(Header#0\.ParentHash, \(Header#0\.Number\.Uint64\(\) - 1\)\)\)`
 		hloc := `HeaderChain#0\.GetTd\(HeaderChain#0\.currentHeaderHash, HeaderChain#0\.CurrentHeader\(\)\.Number\.Uint64\(\)\)`
@@ -144,5 +160,5 @@ func runC02(c *Ctx) {
 			{Name: "header chain head moves only when the new total difficulty is not lower", Re: `^` + hext + ` (>|==) ` + hloc + `$`},
 		})
 	})
-	c.Min("C02-R2", 10)
+	c.Min("C02-R2", 11)
 }
